@@ -20,6 +20,7 @@ import (
 type textStr struct {
 	Syms []string `json:"syms"`
 	Hex  string   `json:"hex"`
+	Rep  int      `json:"rep"` // the byte string is repeated Rep times (texts beyond 64 KiB)
 	b    []byte
 }
 
@@ -35,6 +36,10 @@ func loadStrings(path string) ([]*textStr, error) {
 			return err
 		}
 		t.b = b
+		if t.Rep > 1 {
+			t.b = bytes.Repeat(b, t.Rep)
+			t.Hex = hex.EncodeToString(t.b)
+		}
 		out = append(out, t)
 		return nil
 	})
@@ -238,6 +243,17 @@ var emitPositions = []emitPos{
 	{"Collection.items[0]", func(s string) ap.Item {
 		return &ap.OrderedCollection{ID: eid, Type: ap.OrderedCollectionType, OrderedItems: ap.ItemCollection{ap.IRI(s), ap.IRI("https://example.com/second")}}
 	}, []interface{}{"orderedItems", 0}},
+	// list members that encode to nothing in front of a real one (nil, typed nil, empty IRI, empty object)
+	{"Object.to[after-nil]", func(s string) ap.Item {
+		return &ap.Object{ID: eid, Type: ap.NoteType, To: ap.ItemCollection{nil, ap.IRI(s), ap.IRI("https://example.com/last")}}
+	}, []interface{}{"to", 0}},
+	{"Object.cc[after-empties]", func(s string) ap.Item {
+		return &ap.Object{ID: eid, Type: ap.NoteType, CC: ap.ItemCollection{ap.IRI(""), &ap.Object{}, (*ap.Actor)(nil), ap.IRI(s)}}
+	}, []interface{}{"cc", 0}},
+	{"Collection.items[between-empties]", func(s string) ap.Item {
+		return &ap.OrderedCollection{ID: eid, Type: ap.OrderedCollectionType, OrderedItems: ap.ItemCollection{ap.IRI("https://example.com/first"), &ap.Object{}, ap.IRI(s), nil}}
+	}, []interface{}{"orderedItems", 1}},
+	{"ItemCollection[after-nil]", func(s string) ap.Item { return ap.ItemCollection{nil, ap.IRI(""), ap.IRI(s), ap.IRI("https://example.com/last")} }, []interface{}{0}},
 	{"IRI", func(s string) ap.Item { return ap.IRI(s) }, []interface{}{}},
 	{"IRIs[1]", func(s string) ap.Item { return ap.IRIs{"https://example.com/first", ap.IRI(s)} }, []interface{}{1}},
 	{"ItemCollection[1]", func(s string) ap.Item { return ap.ItemCollection{ap.IRI("https://example.com/first"), ap.IRI(s)} }, []interface{}{1}},
